@@ -469,6 +469,9 @@ func main() {
 	})
 	ctx.Jobs("search", len(jobs), func(j int) { sp.RunPlanCfgShard(ctx, jobs[j].p, jobs[j].cfg, jobs[j].op, check) })
 	ctx.Jobs("dense", 1, func(j int) { dense() })
+	if !ctx.IsChild() {
+		ctx.RacePairs("convert")
+	}
 	ctx.Jobs("lookalikes", 1, func(j int) { lookalikes(); statusSweep() })
 	ctx.Set("traces_validated_against_impl", ctx.GetInt("transitions"))
 	ctx.Set("max_depth", ctx.GetInt("max:depth"))
